@@ -156,6 +156,7 @@ def gen_cpu(ctx):
 def run(ctx):
     ctx.rule = ("task sets of 1..4 scripted tasks (scripts over sleep {0,1,2,5} and emit, incl. several emits per resumption and empty scripts) x budget partitions "
                 "(all compositions of 12 sampled in thorough; random partitions, zero budgets, one single-budget canonical run) on the real AsyncDriver; "
+                "pairs of those cases run as two AsyncDrivers alive on one thread (three construction orders, budgets issued alternately) against each driver's answer alone; "
                 "plus generated programs x slice sizes {1,2,3,7,10000} x timer settings for AsyncRuntimeRunner vs CoreRuntime::step; non-trivial = at least two tasks share a wake cycle or an event is emitted; distinct by text")
     ctx.trusted += ["correspondence harness: verif-harness sched_cmd.rs (scripted futures on AsyncDriver::spawn/run_for with sleep_cycles/emit_event/current_cycle; AsyncRuntimeRunner vs CoreRuntime::step), extracted model_driver",
                     "modelled not verified: async_driver.rs (run_for, CycleSleep, the thread-local channel); async_cpu.rs/async_runtime.rs are exercised against CoreRuntime::step, not modelled (the CPU step is the Rust core itself); async_devices.rs and bin/pce500.rs (CLI, not buildable offline) are outside"]
@@ -198,6 +199,36 @@ def run(ctx):
             if len(set(cyc)) < len(cyc) and len(c[2]) > 1 or "U" in a:
                 ctx.nontrivial.add(fmt(c))
         ctx.count(f"tasks={len(c[2])}")
+    # two drivers alive on the same thread share the thread-local cycle / wake / event channel: each must behave exactly as it
+    # does alone (its answer to `sched`), whatever the other one does in between and in whichever order they were constructed
+    rng = ctx.rng
+    pool = [i for i in small if "|" in (outs["rs"][i] or "")]
+    pairs = []
+    for _ in range(1500 if ctx.tier == "thorough" else 200):
+        ia, ib = rng.choice(pool), rng.choice(pool)
+        pairs.append((rng.randint(0, 2), ia, ib))
+    plines = [f"{o} {lines[ia]} / {lines[ib]}" for o, ia, ib in pairs]
+    pans, _ = corr.run_exec("rs", "sched2", plines)
+    for (o, ia, ib), l, a in zip(pairs, plines, pans):
+        ctx.evaluations += 1
+        ctx.traces += 1
+        ctx.count("two_drivers_one_thread")
+        halves = [x.strip() for x in a.split("||")]
+        want = [outs["rs"][ia].strip(), outs["rs"][ib].strip()]
+        if len(halves) != 2:
+            ctx.report(["rs", "two_drivers_error"], f"sched2 failed: {a[:120]}", {"case": "sched2 " + l})
+            continue
+        for name, got, exp, idx in (("A", halves[0], want[0], ia), ("B", halves[1], want[1], ib)):
+            if got != exp:
+                # say what is wrong in the property's terms by running the witness oracle on the driver's own answer
+                ctx.report(["rs", "driver_disturbed_by_another_driver_on_the_thread"],
+                           f"driver {name} (construction order {o}) answers '{got[:90]}' next to another driver but '{exp[:90]}' alone "
+                           f"(wake cycles requested: {[expected_wakes(cases[idx][0], t) for t in cases[idx][2]]})",
+                           {"case": "sched2 " + l, "answer": a, "alone": exp})
+                break
+        else:
+            if cases[ia][0] != cases[ib][0] or len(cases[ia][2]) + len(cases[ib][2]) > 2:
+                ctx.nontrivial.add("sched2 " + l)
     # CPU through the scheduler vs synchronous loop
     cpu = gen_cpu(ctx)
     ans, err = corr.run_exec("rs", "asynccpu", cpu)
